@@ -259,6 +259,9 @@ pub struct SlotHandle {
     pub slot: Mutex<Slot>,
     pub progress: AtomicU64,
     pub busy: AtomicBool,
+    /// set while a case is executed whose table the interpreter predicts to loop: the watchdog then
+    /// waits 10 s instead of the full deadline
+    pub expect_hang: AtomicBool,
 }
 
 thread_local! {
@@ -280,6 +283,7 @@ pub fn my_slot() -> Arc<SlotHandle> {
                 slot: Mutex::new(Slot::default()),
                 progress: AtomicU64::new(0),
                 busy: AtomicBool::new(false),
+                expect_hang: AtomicBool::new(false),
             });
             registry().lock().unwrap().push(h.clone());
             *s = Some(h);
@@ -310,6 +314,10 @@ pub fn set_hay(h: &Arc<SlotHandle>, hay: &[u8]) {
         s.hay.extend_from_slice(hay);
     }
     h.progress.fetch_add(1, Ordering::Relaxed);
+}
+
+pub fn expect_hang(on: bool) {
+    my_slot().expect_hang.store(on, Ordering::Relaxed);
 }
 
 pub fn tick_progress() {
@@ -479,7 +487,8 @@ pub fn install_guards(hang_secs: u64) {
                     let p = h.progress.load(Ordering::Relaxed);
                     if p != last[i].0 || !h.busy.load(Ordering::Relaxed) {
                         last[i] = (p, Instant::now());
-                    } else if last[i].1.elapsed().as_secs() >= hang_secs {
+                    } else if last[i].1.elapsed().as_secs() >= if h.expect_hang.load(Ordering::Relaxed) { hang_secs.min(10) } else { hang_secs } {
+                        let hang_secs = last[i].1.elapsed().as_secs();
                         let s = h.slot.lock().unwrap_or_else(|e| e.into_inner()).clone();
                         let mut case = slot_case_json(&s);
                         case.as_object_mut()
